@@ -16,6 +16,7 @@ RULE = ("bases enumerated (digit sub-spaces, disjoint blocks per shard: distinct
         "non-trivial when the library function was actually called on it and its answer compared with "
         "the independent reference (check digit, validation of the completed id, rejection of every "
         "other check character on the sampled subset, ISIN conversion)")
+RULE += " Added later: 'known prefix' comes from a frozen list (vf/oracles/agencies.py), the library's table is probed key by key, identifiers of twelve real securities serve as anchors; padded and look-alike identifiers; malformed calls interleaved."
 ASSUMPTIONS = [
     "reference implementation vf/oracles/ref_checkdigit.py is correct (self-tested on published identifiers at start-up)",
     "known numbering-agency prefixes = vf/oracles/agencies.py (frozen copy of the library's table of 68 agencies, the four keys that had lost their second letter restored)",
